@@ -122,7 +122,8 @@ let handle line =
       let s = psig l sg sc_ o mn mx in
       let r = raw_of s raw in
       let res_m = getter_physical s r in
-      let back_m = if not_nan res_m then raw_hex s (setter_raw s res_m) else "x" in
+      let fp_m = from_physical s res_m in
+      let back_m = if not_nan fp_m then raw_hex s (btrunc (zi 53) (zi 1024) fp_m) else "x" in
       let model = fhex res_m ^ " " ^ back_m in
       note_case ~nontrivial:(res <> "0") "TP" line;
       let res_i = fbits res in
